@@ -55,7 +55,6 @@ impl SharedCache {
 }
 // C18: the port this server process is configured to send upstream queries to (dns_resolver::resolve puts it into the context)
 pub uninterp spec fn configured_port() -> u16;
-pub uninterp spec fn addr_port(a: SocketAddr) -> u16;
 #[verifier::external_body]
 pub fn query_nameserver(address: SocketAddr, question: Question, recursion_desired: bool) -> (r: Option<Message>)
     requires addr_port(address) == configured_port(), // [C18:upstream_queries_go_to_the_configured_port]
@@ -81,8 +80,6 @@ fn shim_labels_to_vec(s: &[Label]) -> (r: Vec<Label>) ensures r@ == s@ { s.into(
 fn shim_sockaddr(ip: IpAddr, port: u16) -> (r: SocketAddr) ensures addr_port(r) == port { (ip, port).into() }
 #[verifier::external_body]
 fn shim_clone_rrs(v: &Vec<ResourceRecord>) -> (r: Vec<ResourceRecord>) ensures r@ == v@ { v.clone() }
-#[verifier::external_type_specification]
-pub struct ExIpAddr(std::net::IpAddr);
 // the type invariant of DomainName (C16: established by every constructor, proved in units names and wire_decode); no code in this
 // unit builds a DomainName other than through DomainName::from_labels
 pub broadcast axiom fn axiom_names_wf(n: DomainName)
@@ -243,6 +240,7 @@ pub struct ExSocketAddr(std::net::SocketAddr);""", """#[verifier::external_type_
 #[verifier::external_body]
 pub struct ExSocketAddr(std::net::SocketAddr);""")
     G.raw(standins, ("spec", "local stand-ins"))
+    G.file(os.path.join(PRELUDE, "sockaddr.rs"))
     for (k, n) in (("enum", "ResolvedRecord"), ("enum", "ResolutionError"), ("struct", "Nameservers")):
         G.item(U, k, n, drop_derive=("Clone",))
         G.raw(UNIMPL_CLONE % {"T": n})
